@@ -329,6 +329,7 @@ func main() {
 	}
 	r := vh.NewRng(vh.EnvSeed())
 	out := vh.NewOut(path)
+	var deferred []schedCase
 	mult := 1
 	if tier == "thorough" {
 		mult = 10
@@ -362,7 +363,7 @@ func main() {
 					}
 					out.Case(top, "accept", "trace2", true)
 					if sop != "" {
-						out.Case(sop, ans, cls, true)
+						deferred = append(deferred, schedCase{sop, ans, cls})
 					}
 				}
 			}
@@ -472,7 +473,7 @@ func main() {
 		}
 		out.Case(top, "accept", "trace2", true)
 		if sop != "" {
-			out.Case(sop, ans, cls, true)
+			deferred = append(deferred, schedCase{sop, ans, cls})
 		}
 	}
 	// systematic templates: cut position x error kind x which frame of the three outstanding ones.
@@ -513,7 +514,7 @@ func main() {
 					}
 					out.Case(top, "accept", "trace2", true)
 					if sop != "" {
-						out.Case(sop, ans, cls, true)
+						deferred = append(deferred, schedCase{sop, ans, cls})
 					}
 				}
 			}
@@ -550,15 +551,23 @@ func main() {
 						}
 						out.Case(top, "accept", "trace2", true)
 						if sop != "" {
-							out.Case(sop, ans, cls+"/large", true)
+							deferred = append(deferred, schedCase{sop, ans, cls+"/large"})
 						}
 					}
 				}
 			}
 		}
 	}
+	// the model-vs-code lines come last: the check keeps the first 50 disagreements, and a change of the writers
+	// that breaks the tie on many sched lines must not push a spec-backed disagreement (a concrete failing input)
+	// out of that window
+	for _, d := range deferred {
+		out.Case(d.op, d.ans, d.cls, true)
+	}
 	out.Close(extra)
 }
+
+type schedCase struct{ op, ans, cls string }
 
 // templateFrameLen reads the length of frame `cf` off a trace2 line (pieces are p<id>:<len>:<off>:<n>).
 func templateFrameLen(trace string, cf int) int {
